@@ -731,6 +731,79 @@ fn partial_pow_pass(env: &Env, report: &mut Report, spec: &str, params: &Params)
             old = Some(sim);
         }
     }
+    // ---- a last header that enters through a proof RESPONSE ("my tip changed": new last header,
+    // empty proof) instead of a SendLastState announcement: the peer announces an honest block of
+    // the main chain, silently moves to a twin chain whose TIP fails PoW (everything else mined)
+    // and answers the proof request for the announced block with its new tip; the client then asks
+    // for the proof of that tip and gets an honest one (all proof headers are mined).
+    for mined_control in [true, false] {
+        let tip = h1 + n + 6;
+        let mut twin = main.fork(h1, 7272);
+        for b in (h1 + 1)..=tip {
+            twin.mine = mined_control || b != tip;
+            scen::extend_chain(&mut twin, &env.scripts, b, &[]);
+        }
+        twin.mine = true;
+        let mut world = World::new(vec![main.clone(), twin], 4);
+        world.add_peer(1, 0, h1);
+        let cfg = crate::verif::client::ClientCfg { last_n: n, mmr_activated_epoch: params.mmr_epoch, ..scen::default_cfg() };
+        crate::verif::client::set_now(crate::verif::world::BASE_TS + 1_000_000);
+        let mut sim = match old.take() {
+            Some(o) => Sim::recycle(o, cfg, world),
+            None => scen::new_sim(env, cfg, world),
+        };
+        crate::verif_hooks::rng_reset(params.seed);
+        if !scen::prove_peer(&mut sim, 1) {
+            old = Some(sim);
+            continue;
+        }
+        sim.queue.clear();
+        let before = trusted_view(&sim);
+        let r = crate::verif::props::panics::catch(|| {
+            sim.set_view(1, 0, h1 + 4, true);
+            sim.deliver(0);
+            sim.set_view(1, 1, tip, false);
+            sim.cm().tick_lc(0);
+            sim.pump_out();
+            // the new-tip answer, then (if the client went along) the proof of the new tip
+            for _ in 0..2 {
+                if advance_until(&mut sim, |m| kind_of(m) == "SendLastStateProof", 0, 10) {
+                    sim.deliver(0);
+                    sim.cm().tick_lc(0);
+                    sim.pump_out();
+                }
+            }
+        });
+        report.count("transitions", 1);
+        report.count("partial_pow/deliveries", 1);
+        if let Err(p) = r {
+            if !p.msg.contains("long fork detected") {
+                report.violation(format!("abort/{}", p.site()), format!("{} [partial PoW, tip through a new-tip answer]", p.describe()), json!({"scenario": "partial-pow", "spec": spec, "shape": "tip-through-new-tip-answer"}));
+            }
+            continue;
+        }
+        let after = trusted_view(&sim);
+        if mined_control {
+            if after == before {
+                report.violation(
+                    "partial-pow/control-not-accepted/tip-through-new-tip-answer".to_owned(),
+                    format!("the fully mined twin was not accepted through the new-tip answer: the pass would be vacuous ({:?})", sim.bans()),
+                    json!({"scenario": "partial-pow", "spec": spec, "shape": "tip-through-new-tip-answer"}),
+                );
+            } else {
+                report.count("partial_pow/controls_accepted", 1);
+            }
+        } else if after != before {
+            report.violation(
+                "mutant-changed-trusted-state/partial-pow/tip-through-new-tip-answer".to_owned(),
+                "a last header that fails PoW was taken from a proof response (new last header, empty proof) and then proven with an honest proof: trusted view changed".to_owned(),
+                json!({"scenario": "partial-pow", "spec": spec, "params": format!("{:?}", params), "shape": "tip-through-new-tip-answer", "view_before": before, "view_after": after}),
+            );
+        } else {
+            report.count("partial_pow/forged_rejected", 1);
+        }
+        old = Some(sim);
+    }
 }
 
 const PROOF_SCNS: [Scn; 5] = [
